@@ -201,6 +201,10 @@ class DescriptorTransaction(_TransactionBase):
         if key in updates_dict:
             msg = f'State {key} already in updated set!'
             raise ValueError(msg)
+        if self._state_key_exists_in_mdib(state_container, key):
+            # the commit would fail in the middle when the unique index rejects the duplicate
+            msg = f'State {key} already exists in mdib!'
+            raise ValueError(msg)
 
         # set reference to descriptor
         state_container.descriptor_container = self.descriptor_updates[state_container.DescriptorHandle].new
@@ -212,6 +216,18 @@ class DescriptorTransaction(_TransactionBase):
                 self._mdib.states.set_version(state_container)
         updates_dict[key] = TransactionItem(None, state_container)
 
+    def _state_key_exists_in_mdib(self, state_container: AbstractStateProtocol, key: str) -> bool:
+        """Return True if the mdib has a state with this key that will still exist when the new state is added."""
+        if state_container.is_context_state:
+            existing = self._mdib.context_states.handle.get_one(key, allow_none=True)
+        else:
+            existing = self._mdib.states.descriptor_handle.get_one(key, allow_none=True)
+        if existing is None:
+            return False
+        tr_item = self.descriptor_updates.get(existing.DescriptorHandle)
+        # states of a descriptor that is deleted in this transaction are gone before new states are added
+        return not (tr_item is not None and tr_item.new is None)
+
     def write_entity(self, # noqa: PLR0912, C901
                      entity: Entity | MultiStateEntity,
                      adjust_version_counter: bool = True):
@@ -220,6 +236,14 @@ class DescriptorTransaction(_TransactionBase):
         if descriptor_handle in self.descriptor_updates:
             msg = f'Entity {descriptor_handle} already in updated set!'
             raise ValueError(msg)
+        if entity.is_multi_state:
+            # check before anything is registered: a new state must not use the handle of a state of another descriptor
+            own_handles = {s.Handle for s in self._mdib.context_states.descriptor_handle.get(descriptor_handle, [])}
+            for state_container in entity.states.values():
+                if state_container.Handle not in own_handles \
+                        and self._state_key_exists_in_mdib(state_container, state_container.Handle):
+                    msg = f'State {state_container.Handle} already exists in mdib!'
+                    raise ValueError(msg)
 
         tmp_descriptor = copy.deepcopy(entity.descriptor)
         orig_descriptor_container = self._mdib.descriptions.handle.get_one(descriptor_handle, allow_none=True)
